@@ -92,9 +92,9 @@ def run_proc(spec):
         jf = os.path.join(run_dir, 'jobs', '%s-%d.json' % (spec['id'], i))
         with open(jf, 'w') as f:
             json.dump(dict(job, perturb=perturb), f)
-        env = dict(os.environ, PYTHONHASHSEED=hs, VERIF_RUN_DIR=run_dir)
+        env = dict(os.environ, PYTHONHASHSEED=hs, VERIF_RUN_DIR=run_dir, PYTHONPATH=str(VERIF))
         try:
-            r = subprocess.run([PYTHON, '-m', 'vf.qrun', jf], cwd=str(VERIF), env=env,
+            r = subprocess.run([PYTHON, '-m', 'vf.qrun', jf], cwd=os.getcwd(), env=env,
                                capture_output=True, text=True, timeout=600)
             answers.append(json.loads(r.stdout)['answers'] if r.returncode == 0 else None)
             if r.returncode != 0:
